@@ -9,8 +9,8 @@ from harness.c08 import mk, diff_key, run_shards, _detuple, KINDS, CFGS
 
 COPY_OPS = ('copy', 'cpath', 'cset', 'cheader')
 HANDLER_KINDS = ['cookies', 'headers', 'status', 'raised', 'errpage', 'crash', 'body', 'empty', 'head', 's204',
-                 'toolarge', 'badjson', 'errjson', 'crashjson', 'copyhdr']
-ERROR_KINDS = ['toolarge', 'badjson', 'toolarge', 'badjson', 'errjson', 'crashjson', 'crash', 'errpage']
+                 'toolarge', 'badjson', 'errjson', 'crashjson', 'copyhdr', 'badmultipart']
+ERROR_KINDS = ['toolarge', 'badjson', 'toolarge', 'badjson', 'badmultipart', 'errjson', 'crashjson', 'crash', 'errpage']
 READBACK = [('path',), ('rdstatus',), ('query', 'q'), ('rdhdr', 'X-Own'), ('cookie', 'c'), ('method',)]
 
 
@@ -85,7 +85,7 @@ def gen_single(rng, idx):
         init = list(apps)
     elif kind == 'mapped-nested':
         # the handler of A calls B, B fails onto a shared error, then A fails onto the same one
-        ek = rng.choice(['toolarge', 'badjson'])
+        ek = rng.choice(['toolarge', 'badjson', 'badmultipart'])
         inner = rq(b, ek)
         if c is not None and rng.random() < .5:
             inner = with_ops(rq(b, ek), own_marks(7), [('nested', rq(c, rng.choice(ERROR_KINDS)))])
@@ -145,10 +145,11 @@ def gen_threads(rng, idx):
         case = dict(apps=[0, 1, 2], threads={1: [('serve', r0)], 2: [('serve', with_ops(req_for(1, 2, kb, 2), own_marks(2), READBACK))]})
     elif kind in ('mapped', 'mapped-default'):
         # two applications on two threads fail onto the same shared error object
-        ek = rng.choice(['toolarge', 'badjson'])
+        ek = rng.choice(['toolarge', 'badjson', 'badmultipart'])
         a0 = 0 if kind == 'mapped-default' else a
         r1 = with_ops(req_for(a0, 1, ek, 1), own_marks(1), [])
-        r2 = with_ops(req_for(2, 2, rng.choice([ek, ek, 'crashjson', 'errjson']), 2), own_marks(2), [])
+        partner = {'badjson': 'badmultipart', 'badmultipart': 'badjson', 'toolarge': 'toolarge'}[ek]
+        r2 = with_ops(req_for(2, 2, rng.choice([partner, partner, ek, 'crashjson']), 2), own_marks(2), [])
         case = dict(apps=[a0, 2], threads={1: [('serve', r1)], 2: [('serve', r2)]})
     elif kind == 'copyhdr':
         r1 = with_ops(req_for(a, 1, 'copyhdr', 1), own_marks(1), READBACK)
